@@ -302,7 +302,7 @@ def model_streams(chk, rng):
     """correspondence of the pipeline model with the real code (scripted collaborators): see pipeline_common.py"""
     big = chk.thorough
     try:
-        if chk.lean is not None and chk.lean.translation.get('excmap') == 'changed':
+        if chk.lean is not None and any(v == 'changed' for v in chk.lean.translation.values()):
             with common.Lock():
                 rc, log = common.lake_build(['driver'])
             if rc != 0:
@@ -345,7 +345,8 @@ def main():
     chk = common.Check('C01')
     sect = {}
     chk.coverage['section_wall_s'] = sect
-    chk.prove('I18n.Props.C01', generated=('excmap',))
+    # the exception map of the source, and every data table of /repo/data that a C01 obligation quantifies over (Props/C01 §8)
+    chk.prove('I18n.Props.C01', generated=('excmap', 'pluralforms', 'tagregistry', 'tagsites', 'locale', 'charset', 'date', 'msg'))
     rng = chk.rng
     model_streams(chk, rng)
     mult = 3 if chk.broken else 1
